@@ -62,36 +62,27 @@ Fixpoint nthq (j : nat) (a : list Q) : Q :=
   | _, [] => 0
   end.
 
-(* number of variable-bound columns of each primal column *)
-Definition vb_counts (s : sense) (cs : list col) : list nat := map (fun c => length (snd (col_dual s c))) cs.
-
-(* the entries of dual row j in the variable-bound columns: ones at the columns that belong to primal column j *)
-Fixpoint vb_entries_at (j : option nat) (counts : list nat) : list Q :=
-  match counts with
-  | [] => []
-  | k :: rest =>
-    match j with
-    | Some O => repeat 1 k ++ vb_entries_at None rest
-    | Some (S j') => repeat 0 k ++ vb_entries_at (Some j') rest
-    | None => repeat 0 k ++ vb_entries_at None rest
-    end
-  end.
+(* number of variable-bound columns of a primal column, of a list of primal columns *)
+Definition cnt (s : sense) (c : col) : nat := length (snd (col_dual s c)).
+Definition total (s : sense) (cs : list col) : nat := length (flat_map (fun c => snd (col_dual s c)) cs).
 
 (* the entries of dual row j in the row columns: a_ij once per dual column of primal row i *)
 Definition row_entries (s : sense) (j : nat) (rs : list row) : list Q :=
   flat_map (fun r => repeat (nthq j (r_coefs r)) (length (row_dual s r))) rs.
 
-Fixpoint dual_rows (s : sense) (p : lp) (j : nat) (cs : list col) : list row :=
+(* dual row of primal column j: ones in its own variable-bound columns ([pre] such columns belong to earlier primal columns),
+   then the coefficients a_ij in the row columns *)
+Fixpoint dual_rows (s : sense) (rs : list row) (pre j : nat) (cs : list col) : list row :=
   match cs with
   | [] => []
   | c :: rest =>
     let sides := fst (col_dual s c) in
-    mkRow (fst sides) (vb_entries_at (Some j) (vb_counts s (l_cols p)) ++ row_entries s j (l_rows p)) (snd sides)
-    :: dual_rows s p (S j) rest
+    mkRow (fst sides) ((repeat 0 pre ++ repeat 1 (cnt s c) ++ repeat 0 (total s rest)) ++ row_entries s j rs) (snd sides)
+    :: dual_rows s rs (pre + cnt s c) (S j) rest
   end.
 
 Definition dual_of (p : lp) : lp :=
   let s := l_sense p in
   mkLP (flip s) 0
        (map mk (flat_map (fun c => snd (col_dual s c)) (l_cols p) ++ flat_map (row_dual s) (l_rows p)))
-       (dual_rows s p O (l_cols p)).
+       (dual_rows s (l_rows p) O O (l_cols p)).
